@@ -35,6 +35,8 @@ def check(R, F):
     # ---- (c)
     wc.check_ttl_not_clamped_on_write(R, F, 'opt-ttl-raw')
 
+    wc.check_anchor_freshness(R, F)
+
     # ---- (d) set_limit
     sl_fn = F.fn(W + 'set_limit')
     dw = effects.direct_writes(sl_fn)
@@ -66,26 +68,5 @@ def check(R, F):
         R.require(ok, 'set-limit', W + 'set_limit|available-delta@%s' % ('grow' if txt.startswith('Add') else 'shrink'), sl_fn.where(b), 'available moves by the same delta as limit: ' + txt, 'available is not adjusted by the limit delta: ' + txt)
 
     # ---- (e) clear_rrs
-    cr = F.fn(W + 'clear_rrs')
-    dw = effects.direct_writes(cr)
-    written = {f for (c, f), sites in dw.items() if c == wc.WRITER_TY and any(k in ('assign', 'calldest') for b, k in sites)}
-    want = {'ancount', 'nscount', 'arcount', 'cursor', 'section', 'most_recent_owner', 'most_recent_name_in_rdata'}
-    R.require(written == want, 'clear-rrs', W + 'clear_rrs|fields', cr.where(), 'resets %s' % sorted(written),
-              'clear_rrs writes %s, expected exactly %s (missing %s, extra %s)' % (sorted(written), sorted(want), sorted(want - written), sorted(written - want)))
-    # must reset everything add_* may write except octets / counters handled above
-    add_roots = [c.gpath for p, c in wc.rollback_closures(F) if p.gpath != W + 'add_question']
-    addw = set(effects.transitive_writes(F, add_roots, wc.WRITER_TY))
-    R.require(addw - {'qname'} <= want, 'clear-rrs', W + 'clear_rrs|covers-add-effects', cr.where(), 'add_* may write %s, all reset' % sorted(addw),
-              'add_* operations may write %s which clear_rrs does not reset' % sorted(addw - want))
-    # cursor := rr_start
-    for b, blk in enumerate(cr.blocks):
-        for st in blk['stmts']:
-            if st['k'] == 'assign' and st['lhs']['p'] and st['lhs']['p'][-1].get('n') == 'cursor':
-                txt = paths.show_operand(cr, st['rv']['op'])
-                R.require(txt == 'arg1.rr_start', 'clear-rrs', W + 'clear_rrs|cursor', cr.where(b), 'cursor = rr_start', 'clear_rrs sets cursor to %s, expected rr_start' % txt)
-    # arcount recomputed from reservations
-    g_all = [x for b in range(len(cr.blocks)) for x in paths.direct_guards(cr, b)]
-    R.require(any('arg1.edns' in x for x in g_all) and any('arg1.tsig' in x for x in g_all), 'clear-rrs', W + 'clear_rrs|arcount-keeps-reservations', cr.where(),
-              'ARCOUNT recounts the reserved OPT and TSIG records', 'clear_rrs no longer recounts the reserved OPT/TSIG records in ARCOUNT')
-    R.floor('clear-rrs', 4)
+    wc.check_clear_rrs(R, F)
     R.floor('set-limit', 5)
